@@ -134,11 +134,21 @@ PROPS['C14'] = dict(
     theorems=[
         ('ValidFacts', 'rawcopy_parse', 'RawCopy: value is the inner result; offsets are tell() before/after; length is their difference; data is what re-reading that many bytes from offset1 gives.'),
         ('ValidFacts', 'rawcopy_final_position', 'RawCopy leaves the stream where the inner construct left it.'),
+        ('ValidFacts', 'rawcopy_build_value', "RawCopy built from {'value': v}: data is exactly what the inner construct appended, between the offsets where it was written, and the output is exactly what the inner construct wrote."),
+        ('ValidFacts', 'rawcopy_build_data', "RawCopy built from {'data': d}: d is written, offsets and length describe it."),
+        ('ValidFacts', 'rawcopy_value_or_data_same_bytes', 'Building from the value and building from the data that build reports emit the same bytes at the same place.'),
         ('ValidFacts', 'checksum_detects', 'Checksum: a stored digest different from the hash of the covered bytes is ChecksumError.'),
         ('ValidFacts', 'checksum_accepts', 'Checksum: a matching digest is accepted.'),
         ('ValidFacts', 'checksum_build', 'Checksum: build writes the hash of the covered bytes whatever value was supplied.'),
     ],
     examples='''
+Example C14_ex_build_value_and_data :
+  build_bytes (CSequence [CFormat Big FB; CRawCopy (CFormat Big FH)]) (VList [VInt 7; VDict [([x76; x61; x6c; x75; x65], VInt 513)]]) [] =
+    Ok (VList [VInt 7; VDict [([x76; x61; x6c; x75; x65], VInt 513); ([x64; x61; x74; x61], VBytes [x02; x01]);
+                              ([x6f; x66; x66; x73; x65; x74; x31], VInt 1); ([x6f; x66; x66; x73; x65; x74; x32], VInt 3);
+                              ([x6c; x65; x6e; x67; x74; x68], VInt 2)]], [x07; x02; x01]) /\\
+  (exists r, build_bytes (CSequence [CFormat Big FB; CRawCopy (CFormat Big FH)]) (VList [VInt 7; VDict [([x64; x61; x74; x61], VBytes [x02; x01])]]) [] = Ok (r, [x07; x02; x01])).
+Proof. split; [vm_compute; reflexivity|eexists; vm_compute; reflexivity]. Qed.
 Example C14_ex_checksum_roundtrip :
   let c := CStruct [CRenamed [x62] (CRawCopy (CBytes (XConst (VInt 3))));
                     CRenamed [x63] (CChecksum (CFormat Big FB) HSum8 (XItem (XItem (XRoot RThis) (KName [x62])) (KName [x64; x61; x74; x61])))] in
